@@ -518,5 +518,43 @@ theorem ocmp_ofInt_ne_eq {i : Int} {f : F64} (hi : i.natAbs ≤ two53) (hf : fra
   refine ⟨h1, fun h => h1 ?_⟩
   rw [← ocmp_swap, h]; rfl
 
+theorem dcmp_eq_lt {x y : Dyadic} : dcmp x y = .lt ↔ x < y := by
+  unfold dcmp
+  by_cases h : x < y
+  · rw [if_pos h]; exact ⟨fun _ => h, fun _ => rfl⟩
+  · rw [if_neg h]
+    refine ⟨fun h' => ?_, fun h' => absurd h' h⟩
+    by_cases h2 : x = y
+    · rw [if_pos h2] at h'; exact absurd h' (by decide)
+    · rw [if_neg h2] at h'; exact absurd h' (by decide)
+
+theorem dcmp_eq_eq {x y : Dyadic} : dcmp x y = .eq ↔ x = y := by
+  unfold dcmp
+  by_cases h : x < y
+  · rw [if_pos h]
+    refine ⟨fun h' => absurd h' (by decide), fun h' => ?_⟩
+    subst h'; exact absurd h Std.lt_irrefl
+  · rw [if_neg h]
+    by_cases h2 : x = y
+    · rw [if_pos h2]; exact ⟨fun _ => h2, fun _ => rfl⟩
+    · rw [if_neg h2]; exact ⟨fun h' => absurd h' (by decide), fun h' => absurd h' h2⟩
+
+theorem dcmp_eq_gt {x y : Dyadic} : dcmp x y = .gt ↔ y < x := by
+  unfold dcmp
+  by_cases h : x < y
+  · rw [if_pos h]
+    exact ⟨fun h' => absurd h' (by decide), fun h' => absurd h' (Std.not_gt_of_lt h)⟩
+  · rw [if_neg h]
+    by_cases h2 : x = y
+    · rw [if_pos h2]
+      refine ⟨fun h' => absurd h' (by decide), fun h' => ?_⟩
+      subst h2; exact absurd h' Std.lt_irrefl
+    · rw [if_neg h2]
+      refine ⟨fun _ => ?_, fun _ => rfl⟩
+      rcases Std.lt_trichotomy x y with h3 | h3 | h3
+      · exact absurd h3 h
+      · exact absurd h3 h2
+      · exact h3
+
 end F64
 end Ag
